@@ -9,15 +9,28 @@
        rRecurs (array of objects)    name "#N/"
        rRecurp (pointer)             name "/", the object exists while a toggle of the
                                      parent table is on (rChangeCb of the harness family)
-   each optionally carrying  enabled by <toggle of the parent table>.
+   each optionally carrying  enabled by <toggle>: the property's value is either the
+   name of a toggle of the parent table ("tg") or - the inner-switch form - the
+   sub-tree's own name followed by a toggle INSIDE it ("name/tg", for an enumerated
+   sub-tree "name#N/tg": element name<i>/ is switched by name<i>/tg).  The code tells the
+   two apart by comparing the property with the port's name (port_is_enabled:
+   WalkModel.subport_split).
+
+   A table may also hold non-parameter ports "name:" ([PAux]: rSelf's "self:", the
+   object pointer "name:" of rRecur).  rSelf(.., rEnabledBy(x)): the metadata of the
+   table's "self:" port names a toggle x of the same table; while x is off walk_ports
+   does not look at the table but is applied to x (WalkModel.self_toggle).
 
    [sports_of] gives the names (the structured port tree of C09 / C04: NameModel
    segments + argument part), [app_of_tree] the flat abstract application of
    SaveModel.v: one port per leaf under every expansion of the '#N' of the
    sub-trees above it - address, kind, range, options, default(s), selector,
    the switches of the pointer sub-trees above (p_hard), the 'enabled by'
-   toggles above (p_soft).  The order is the walk's (C09: table order, leftmost
-   index slowest).
+   toggles above (p_soft; an inner switch is not governed by itself: while it is
+   off the walk does not descend but still reports the switch; likewise the switch
+   an rSelf names).  The order is the walk's (C09: table order, leftmost index
+   slowest).  A non-parameter port is walked like a leaf and never saved: it has an
+   entry without default (p_nodef) - no theorem sends a message to it.
 
    [run_events] interprets the callbacks a dispatch invoked (the events of C04's
    tree model, one per level): a sub-tree port descends (rRecurCb / rRecursCb) -
@@ -28,7 +41,8 @@
 
    No proofs in this file. *)
 From Coq Require Import List ZArith Bool.
-From RtoscV Require Import Match.PatSpec Match.MatchModel Ports.NameModel Ports.WalkModel Ports.DispatchModel.
+From RtoscV Require Import Match.PatSpec Match.MatchModel Ports.NameModel Ports.PathModel Ports.WalkModel Ports.DispatchModel.
+From RtoscV Require Ports.MetaModel.
 From RtoscV Require Ports.SugarModel.
 From RtoscV Require Import Save.TopoModel Save.SaveModel.
 Import ListNotations.
@@ -50,8 +64,11 @@ Inductive pt :=
 | PLeaf (nm : str) (arr : option nat) (d : leafdata)
 | PSub (nm : str) (enum : option nat)
        (ptr : option str)          (* rRecurp: name of the switch in the parent table *)
-       (sw : option str)           (* "enabled by": name of a toggle in the parent table *)
-       (sub : list pt).
+       (sw : option str)           (* "enabled by": the literal value of the property - "tg" (a toggle
+                                      of the parent table) or "name/tg" / "name#N/tg" (a toggle inside) *)
+       (sub : list pt)
+| PAux (nm : str)                  (* a non-parameter port "nm:" - "self:" is the table's rSelf port *)
+       (sw : option str).          (* its "enabled by" property (rSelf: a toggle of the same table) *)
 
 (* ---- names (C09's structured port tree) ----------------------------------------- *)
 Definition leaf_segs (nm : str) (arr : option nat) : list seg :=
@@ -73,10 +90,21 @@ Definition kind_types (k : skind) : list str :=
   | KS _ => [[]; [115]]
   end.
 
+(* the name of a sub-tree port as the table holds it: "name/" or "name#N/" *)
+Definition sub_name (nm : str) (enum : option nat) : str := render_name (sub_segs nm enum) [].
+
+(* the metadata block of a sub-tree port: ":enabled by\0=<value>\0" (rEnabledBy) *)
+Definition sub_meta (sw : option str) : option (list byte) :=
+  match sw with
+  | Some g => Some (MetaModel.render [(WalkModel.enabled_by, Some g)])
+  | None => None
+  end.
+
 Fixpoint sport_of (p : pt) : sport :=
   match p with
   | PLeaf nm arr d => SPort (leaf_segs nm arr) (render_types (Some (kind_types (ld_kind d)))) None None
-  | PSub nm enum _ _ sub => SPort (sub_segs nm enum) [] None (Some (map sport_of sub))
+  | PSub nm enum _ sw sub => SPort (sub_segs nm enum) [] (sub_meta sw) (Some (map sport_of sub))
+  | PAux nm sw => SPort [Lit nm] [58] (sub_meta sw) None
   end.
 Definition sports_of (t : list pt) : list sport := map sport_of t.
 
@@ -99,21 +127,58 @@ Definition leaf_port (path : str) (arr : option nat) (d : leafdata) : port :=
      p_sel := None; p_table := ld_table d; p_hard := []; p_soft := [];
      p_nodef := ld_nodef d; p_init := ld_init d |}.
 
+(* the address of the toggle that enables the sub-tree port [qn] of the table at [dir],
+   for the expansion x of its name ("name/", "name<i>/"), g = the 'enabled by' property:
+   the port behind "name/" below the sub-tree's own expanded address (inner form), or
+   the port g of the parent table *)
+Definition sw_addr (dir qn x g : str) : str :=
+  match subport_split qn g with
+  | Some e => dir ++ x ++ e
+  | None => dir ++ g
+  end.
+
+(* the toggles that govern a port: those above it, except the port itself (the inner
+   switch of a sub-tree stands below the sub-tree it switches) *)
+Definition soft_of (path : str) (soft : list str) : list str :=
+  filter (fun g => negb (str_eqb g path)) soft.
+
+(* rSelf(.., rEnabledBy(x)): what the first port "self:" of a table says *)
+Definition self_name : str := [115; 101; 108; 102].
+Fixpoint self_sw (l : list pt) : option str :=
+  match l with
+  | [] => None
+  | PAux nm sw :: r => if str_eqb nm self_name then sw else self_sw r
+  | _ :: r => self_sw r
+  end.
+(* the toggle the table at address [dir] is enabled by *)
+Definition self_soft (dir : str) (l : list pt) : list str :=
+  olist (option_map (fun v => dir ++ v) (self_sw l)).
+
+(* the entry of a non-parameter port: no default, never saved *)
+Definition aux_ld : leafdata :=
+  {| ld_kind := KI; ld_min := None; ld_max := None; ld_opts := []; ld_default := []; ld_sel := None;
+     ld_table := []; ld_nodef := true; ld_init := [VI 0] |}.
+
 (* ids = the index path of p itself, dir = the address of the table that holds it *)
 Fixpoint flat_pt (ids : list nat) (dir : str) (hard soft : list str) (p : pt) {struct p} : list fport :=
   match p with
   | PLeaf nm arr d =>
       [ {| f_id := ids; f_port := leaf_port (dir ++ nm) arr d;
-           f_sel := option_map (fun x => dir ++ x) (ld_sel d); f_hard := hard; f_soft := soft |} ]
+           f_sel := option_map (fun x => dir ++ x) (ld_sel d); f_hard := hard;
+           f_soft := soft_of (dir ++ nm) soft |} ]
   | PSub nm enum ptr sw sub =>
       let hard' := hard ++ olist (option_map (fun x => dir ++ x) ptr) in
-      let soft' := soft ++ olist (option_map (fun x => dir ++ x) sw) in
       flat_map (fun x =>
+        let soft' := (soft ++ olist (option_map (sw_addr dir (sub_name nm enum) x) sw))
+                     ++ self_soft (dir ++ x) sub in
         (fix go (l : list pt) (i : nat) : list fport :=
            match l with
            | [] => []
            | q :: r => flat_pt (ids ++ [i]) (dir ++ x) hard' soft' q ++ go r (S i)
            end) sub 0%nat) (expand (sub_segs nm enum))
+  | PAux nm _ =>
+      [ {| f_id := ids; f_port := leaf_port (dir ++ nm) None aux_ld;
+           f_sel := None; f_hard := hard; f_soft := soft_of (dir ++ nm) soft |} ]
   end.
 
 Fixpoint flat_tbl (ids : list nat) (dir : str) (hard soft : list str) (l : list pt) (i : nat) : list fport :=
@@ -122,7 +187,7 @@ Fixpoint flat_tbl (ids : list nat) (dir : str) (hard soft : list str) (l : list 
   | q :: r => flat_pt (ids ++ [i]) dir hard soft q ++ flat_tbl ids dir hard soft r (S i)
   end.
 
-Definition flat_root (t : list pt) : list fport := flat_tbl [] [47] [] [] t 0%nat.
+Definition flat_root (t : list pt) : list fport := flat_tbl [] [47] [] (self_soft [47] t) t 0%nat.
 
 (* an address as the index of the port that has it (length = none) *)
 Fixpoint idx_of (ps : list str) (q : str) : nat :=
@@ -246,6 +311,7 @@ Fixpoint run_events (a : app) (tbl : list pt) (dir : str) (evs : list event)
                         | None => false
                         end in
           if absent then None else run_events a sub loc rest arg s
+      | Some (PAux _ _) => Some s           (* rSelf's callback replies the object pointer: the state stays *)
       | None => None
       end
   | _ => None        (* no leaf callback ran: dispatch reports no match *)
@@ -306,41 +372,48 @@ Definition nohash (l : list sport) : list Z * list Z := ([], []).
 Definition len_id (l : list sport) : Z := Z.of_nat (length l).
 
 (* ---- the walk with the runtime object of a state ---------------------------------------------- *)
-(* the sub-tree ports under every expansion: address (with the trailing '/'), switch
-   of the pointer, 'enabled by' toggle (addresses) *)
-Definition dir_entry := (str * option str * option str)%type.
+(* the tables - the root and the sub-tree ports under every expansion: address (with the
+   trailing '/'), switch of the pointer, 'enabled by' toggle (addresses; the inner form: the
+   toggle below that expansion), the toggle the table's rSelf names *)
+Definition dir_entry := (str * option str * option str * option str)%type.
 
 Fixpoint dirs_pt (dir : str) (p : pt) {struct p} : list dir_entry :=
   match p with
-  | PLeaf _ _ _ => []
+  | PLeaf _ _ _ | PAux _ _ => []
   | PSub nm enum ptr sw sub =>
       flat_map (fun x =>
-        (dir ++ x, option_map (fun g => dir ++ g) ptr, option_map (fun g => dir ++ g) sw) ::
+        (dir ++ x, option_map (fun g => dir ++ g) ptr, option_map (sw_addr dir (sub_name nm enum) x) sw,
+         option_map (fun v => (dir ++ x) ++ v) (self_sw sub)) ::
         (fix go (l : list pt) : list dir_entry :=
            match l with [] => [] | q :: r => dirs_pt (dir ++ x) q ++ go r end) sub)
         (expand (sub_segs nm enum))
   end.
 Fixpoint dirs_tbl (dir : str) (l : list pt) : list dir_entry :=
   match l with [] => [] | q :: r => dirs_pt dir q ++ dirs_tbl dir r end.
-Definition dirs_root (t : list pt) : list dir_entry := dirs_tbl [47] t.
+Definition dirs_root (t : list pt) : list dir_entry :=
+  ([47], None, None, option_map (fun v => [47] ++ v) (self_sw t)) :: dirs_tbl [47] t.
 
-Definition dir_addr (d : dir_entry) : str := fst (fst d).
+Definition dir_addr (d : dir_entry) : str := fst (fst (fst d)).
 Definition dir_find (ds : list dir_entry) (b : str) : option dir_entry :=
   find (fun d => str_eqb (dir_addr d) b) ds.
 
 (* the oracle C09's walk model asks: o_null b - the sub-tree at address b is a pointer
    whose switch is off (the object does not exist); o_disabled b - its 'enabled by'
-   toggle answers false *)
+   toggle answers false; o_selfoff b - the toggle the rSelf port of the table at b names
+   answers false *)
 Definition oracle_of (a : app) (ds : list dir_entry) (s : state) : oracle :=
   {| o_null := fun b => match dir_find ds b with
-                        | Some (_, Some g, _) => negb (sw_on a s g)
+                        | Some (_, Some g, _, _) => negb (sw_on a s g)
                         | _ => false
                         end;
      o_disabled := fun b => match dir_find ds b with
-                            | Some (_, _, Some g) => negb (sw_on a s g)
+                            | Some (_, _, Some g, _) => negb (sw_on a s g)
                             | _ => false
                             end;
-     o_selfoff := fun _ => false |}.
+     o_selfoff := fun b => match dir_find ds b with
+                           | Some (_, _, _, Some g) => negb (sw_on a s g)
+                           | _ => false
+                           end |}.
 
 (* the ports the walker was called for: those whose (first element's) address it was given *)
 Definition reported (out : list report) (addr : str) : bool := existsb (fun r => str_eqb (snd r) addr) out.
@@ -350,3 +423,56 @@ Definition walk_tree (t : list pt) (st : state) : list nat :=
   | WOk out _ => filter (fun i => reported out (elem_addr (port_at a i) 0)) (seq 0 (length a))
   | WFail => []
   end.
+
+(* ---- side conditions on the 'enabled by' properties (decidable) --------------------------------- *)
+Definition nonul_b (s : str) : bool := forallb (fun c => negb (c =? 0)) s.
+
+(* the inner form: what stands behind "name/" is, for Ports::operator[] on the sub-table
+   (ask_ports[ask_port_str]), a toggle leaf of that name *)
+Definition inner_ok (sub : list pt) (e : str) : bool :=
+  match index_op (map render_port (sports_of sub)) e with
+  | Some j =>
+      match nth_error sub j with
+      | Some (PLeaf nm None d) => str_eqb nm e && match ld_kind d with KT => true | _ => false end
+      | _ => false
+      end
+  | None => false
+  end.
+
+(* rSelf(.., rEnabledBy(x)) on a table: Ports::operator[]("self:") finds that port, and x is a
+   toggle leaf of the same table *)
+Definition self_ok (l : list pt) : bool :=
+  match self_sw l with
+  | None => true
+  | Some x =>
+      nonul_b x && inner_ok l x &&
+      match index_op (map render_port (sports_of l)) self_key with
+      | Some i =>
+          match nth_error l i with
+          | Some (PAux nm (Some x')) => str_eqb nm self_name && str_eqb x' x
+          | _ => false
+          end
+      | None => false
+      end
+  end.
+
+(* every 'enabled by' value is a C string; one of the inner form names a toggle of the
+   sub-tree's own table - the same toggle as that table's rSelf if it has one (else the inner
+   switch would be reported while it is off whatever the rSelf switch says, and only with
+   the rSelf switch on while it is on: no conjunction of toggles) -, the other form is one
+   name (port_is_enabled: assert(!strchr(ask_port_str, '/'))) *)
+Fixpoint sw_ok (p : pt) : bool :=
+  match p with
+  | PLeaf _ _ _ => true
+  | PSub nm enum _ sw sub =>
+      match sw with
+      | Some g => nonul_b g && match subport_split (sub_name nm enum) g with
+                               | Some e => inner_ok sub e &&
+                                           match self_sw sub with Some x => str_eqb x e | None => true end
+                               | None => negb (has_char 47 g)
+                               end
+      | None => true
+      end && self_ok sub && forallb sw_ok sub
+  | PAux _ sw => match sw with Some g => nonul_b g | None => true end
+  end.
+Definition switches_ok (t : list pt) : bool := self_ok t && forallb sw_ok t.
